@@ -95,6 +95,20 @@ def run(tier, seed, rng):
                 raw = bytes([off, ln]) + b'ABCDEFGH' + b'\xbe\xef' + b'wxyz'
                 G.add_unpack(0, raw, 0, record=True)
         groups.append(G)
+    # ---- computed sizes around zero: a string whose size expression goes negative must not parse (if it did, the cursor
+    # would move backwards, later fields would re-read consumed bytes and pack() would have to raise): every size -3..3
+    for variant, how in enumerate(('expr', 'lambda', 'field')):
+        size = ('field', 0) if how == 'field' else ('bin', 'Sub', ('field', 0), ('lit', 3))
+        fields = [{'move': None, 'body': ('elem', ('leaf', ('int', 1, how == 'field', None, 0)))},
+                  {'move': None, 'body': ('elem', ('leaf', ('int', 1, False, None, 0)))},
+                  {'move': None, 'body': ('elem', ('leaf', ('dsized', size, how, b'')))},
+                  {'move': None, 'body': ('elem', ('leaf', ('int', 2, False, None, 0)))}]
+        table = {0: dict(end=None, align=None, sbl=None, gp=True, gu=False, vec=True, ann=True, fields=fields)}
+        G = pktcases.Group(table, 51000 + variant)
+        for n in range(-3, 4):
+            first = (n % 256) if how == 'field' else n + 3
+            G.add_unpack(0, bytes([first, 0x10]) + b'\xbe\xefwxyz', 0, record=True)
+        groups.append(G)
     records, disagreements = pktcases.run_groups(groups, 'c01')
     failures = []
     dist = dict(parsed=0, exact_checked=0, weak_checked=0, with_holes=0, offset_nonzero=0, pack_error_on_overlap=0)
